@@ -87,8 +87,10 @@ func generate(w *mon.W) {
 			"always": func() *Op { return &Op{K: "where", X: Bin(">=", Name("id"), Num("0"))} },
 			"sort":   func() *Op { return &Op{K: "sort", Terms: []SortTerm{{X: Name("id"), Dir: "desc"}}} },
 			"proj":   func() *Op { return &Op{K: "project", Cols: []Col{{Name: id("id")}}} },
+			// the key column defined anew with the order of its values reversed
+			"rebind": func() *Op { return &Op{K: "project", Cols: []Col{{Name: id("id"), X: Bin("-", Num("0"), Name("id"))}}} },
 		}
-		names := []string{"take0", "take1", "take9", "top0", "top1", "count", "sumall", "sumby", "never", "always", "sort", "proj"}
+		names := []string{"take0", "take1", "take9", "top0", "top1", "count", "sumall", "sumby", "never", "always", "sort", "proj", "rebind"}
 		var brec func(seq []string)
 		brec = func(seq []string) {
 			if w.Stopped() {
